@@ -3,7 +3,7 @@
    ring / field reasoning under the side conditions of the code's own guards, so an algebraically equivalent rewrite of
    the source keeps them, and any other change of a formula breaks them. *)
 From Coq Require Import Reals Lra.
-From PMH Require Import Gen.SetSketchFormulas Gen.SetFormulasSrc.
+From PMH Require Import Gen.SetSketchFormulas Gen.SetSketchLaw Gen.SetFormulasSrc.
 Open Scope R_scope.
 
 (* normalise the two shapes that are not ring identities: ln_1p (b - 1) = ln b, and equal arguments of ln / sqrt *)
@@ -42,3 +42,9 @@ Lemma jb_sup_src_ok b X : 1 < b -> jb_sup_src b X = jb_sup b X.
 Proof. intros Hb. unfold jb_sup_src, jb_sup. src_solve. Qed.
 Lemma jb_binf_src_ok b X : 1 < b -> jb_binf_src b X = jb_binf b X.
 Proof. intros Hb. unfold jb_binf_src, jb_binf. src_solve. Qed.
+
+(* the register law of SetSketcher::sketch: coefficient of the j-th exponential increment, register before flooring *)
+Lemma ss_gap_src_ok a m j : 0 < a -> j < m -> ss_gap_src a m j = ss_gap a m j.
+Proof. intros Ha Hj. unfold ss_gap_src, ss_gap. src_solve. Qed.
+Lemma ss_reg_real_src_ok lnb x : 0 < lnb -> ss_reg_real_src lnb x = ss_reg_real lnb x.
+Proof. intros Hl. unfold ss_reg_real_src, ss_reg_real. src_solve. Qed.
